@@ -118,11 +118,22 @@ pub fn enc_err(e: &SplError, out: &mut Vec<u64>) {
     enc_emsg(&e.1, out);
 }
 
+thread_local! {
+    /// when set, only syntax errors are encoded (build and semantic messages are skipped)
+    pub static PARSE_ERRORS_ONLY: std::cell::Cell<bool> = std::cell::Cell::new(false);
+}
+
 fn enc_info(i: &AstInfo, out: &mut Vec<u64>) {
     out.push(i.range.start as u64);
     out.push(i.range.end as u64);
-    out.push(i.errors.len() as u64);
-    for e in &i.errors {
+    let only = PARSE_ERRORS_ONLY.with(|c| c.get());
+    let errs: Vec<&SplError> = i
+        .errors
+        .iter()
+        .filter(|e| !only || matches!(e.1, ErrorMessage::ParseErrorMessage(_)))
+        .collect();
+    out.push(errs.len() as u64);
+    for e in errs {
         enc_err(e, out);
     }
 }
